@@ -18,10 +18,11 @@ def gen_schedule(rng):
     rank = rng.choice([1, 2, 2, 3])
     # loops: each operand dim is covered by 1..2 loops (tiled) and optionally an extra sliding loop (conv-like)
     loops = []   # (bound)
+    keep_order = False
     dim_exprs = []  # per operand dim: list of (loop index, coeff)
     shape = []
     for d in range(rank):
-        kind = rng.choice(["plain", "plain", "tiled", "tiled", "slide"])
+        kind = rng.choice(["plain", "plain", "tiled", "tiled", "tiled3", "slide"])
         if kind == "plain":
             b = rng.choice([1, 2, 3, 4, 6, 8, 12, 16])
             loops.append(b)
@@ -33,6 +34,13 @@ def gen_schedule(rng):
             loops += [o, t]
             dim_exprs.append([(len(loops) - 2, t), (len(loops) - 1, 1)])
             shape.append(o * t)
+        elif kind == "tiled3":
+            # three tile levels of one dimension (a chain of contiguous tiles when the loops stay next to each other)
+            t, mid, o = rng.choice([2, 4, 8]), rng.choice([2, 4]), rng.choice([2, 3])
+            loops += [o, mid, t]
+            dim_exprs.append([(len(loops) - 3, mid * t), (len(loops) - 2, t), (len(loops) - 1, 1)])
+            shape.append(o * mid * t)
+            keep_order = keep_order or rng.random() < 0.6
         else:
             a, f = rng.choice([4, 6, 8]), rng.choice([1, 2, 3])
             loops += [a, f]
@@ -54,7 +62,8 @@ def gen_schedule(rng):
         extra = len(loops) - 1
     nl = len(loops)
     perm = list(range(nl))
-    rng.shuffle(perm)          # new position of each loop
+    if not keep_order:
+        rng.shuffle(perm)          # new position of each loop
     pos = {old: new for new, old in enumerate(perm)}
     bounds = [0] * nl
     for old, b in enumerate(loops):
@@ -167,7 +176,7 @@ def run(pid: str, tier: str, seed: int, selftest=False, replay=None) -> int:
     rep = Report(pid, tier, seed)
     known = KnownFindings()
     rng = random.Random(seed)
-    n = 350 if tier == "quick" else 6000
+    n = 1000 if tier == "quick" else 6000
     cases = []
     made = 0
     prev_text = None
